@@ -1,7 +1,580 @@
 package main
 
+import (
+	"bufio"
+	"fmt"
+	"go/ast"
+	"go/parser"
+	"go/token"
+	"os"
+	"path/filepath"
+	"sort"
+	"strings"
+)
+
+// ---- helpers private to the C14 generator (prefix c14) ------------------------------------------------------------
+
+func c14norm(s string) string { return strings.Join(strings.Fields(s), " ") }
+
+// c14LoadAbs registers a package that lives outside the relic tree (a module of the module cache) under a symbolic key.
+func c14LoadAbs(key, abs string) bool {
+	if _, ok := pkgs[key]; ok {
+		return true
+	}
+	p := &pkgInfo{fset: token.NewFileSet(), files: map[string]*ast.File{}}
+	ents, err := os.ReadDir(abs)
+	if err != nil {
+		return false
+	}
+	for _, e := range ents {
+		n := e.Name()
+		if !strings.HasSuffix(n, ".go") || strings.HasSuffix(n, "_test.go") {
+			continue
+		}
+		f, err := parser.ParseFile(p.fset, filepath.Join(abs, n), nil, 0)
+		if err != nil {
+			continue
+		}
+		p.files[n] = f
+	}
+	pkgs[key] = p
+	return len(p.files) > 0
+}
+
+// c14ModDir: directory of module `mod` at the version pinned in relic's go.mod
+func c14ModDir(mod string) string {
+	f, err := os.Open(filepath.Join(repo, "go.mod"))
+	if err != nil {
+		return ""
+	}
+	defer f.Close()
+	ver := ""
+	sc := bufio.NewScanner(f)
+	for sc.Scan() {
+		fs := strings.Fields(sc.Text())
+		for i, w := range fs {
+			if w == mod && i+1 < len(fs) {
+				ver = fs[i+1]
+			}
+		}
+	}
+	if ver == "" {
+		return ""
+	}
+	cache := os.Getenv("GOMODCACHE")
+	if cache == "" {
+		gp := os.Getenv("GOPATH")
+		if gp == "" {
+			home := os.Getenv("HOME")
+			if home == "" {
+				home = "/root"
+			}
+			gp = filepath.Join(home, "go")
+		}
+		cache = filepath.Join(gp, "pkg", "mod")
+	}
+	return filepath.Join(cache, mod+"@"+ver)
+}
+
+// c14StmtPos: index of the first top-level statement of the function whose normalised text starts with prefix (-1: none)
+func (o *out) c14StmtPos(dir, recv, name, prefix, coqName string) {
+	p, fd := findFunc(dir, recv, name)
+	if fd == nil {
+		o.brokenDef(coqName, "function "+dir+":"+recv+"."+name+" not found")
+		return
+	}
+	pos := -1
+	for i, st := range fd.Body.List {
+		if strings.HasPrefix(c14norm(printNode(p.fset, st)), prefix) {
+			pos = i
+			break
+		}
+	}
+	if pos < 0 {
+		o.f("Definition %s : Z := (-1). (* %s:%s.%s has NO top-level statement starting `%s` *)\n", coqName, dir, recv, name, prefix)
+		return
+	}
+	o.f("Definition %s : Z := %d. (* %s:%s.%s top-level statement #%d starts `%s` *)\n", coqName, pos, dir, recv, name, pos, prefix)
+}
+
+// c14CountCalls: number of calls (function literals included) whose printed callee equals or ends in .suffix
+func (o *out) c14CountCalls(dir, recv, name, callee, coqName string) {
+	p, fd := findFunc(dir, recv, name)
+	if fd == nil {
+		o.brokenDef(coqName, "function "+dir+":"+recv+"."+name+" not found")
+		return
+	}
+	n := 0
+	ast.Inspect(fd.Body, func(x ast.Node) bool {
+		if ce, ok := x.(*ast.CallExpr); ok {
+			c := printNode(p.fset, ce.Fun)
+			if c == callee || strings.HasSuffix(c, "."+callee) {
+				n++
+			}
+		}
+		return true
+	})
+	o.f("Definition %s : Z := %d. (* %s:%s.%s : number of calls to %s *)\n", coqName, n, dir, recv, name, callee)
+}
+
+// c14KeyValue: translate the value of the first composite-literal field `key: value` in the function
+func (o *out) c14KeyValue(fs funcSpec, key string) {
+	p, fd := findFunc(fs.dir, fs.recv, fs.name)
+	if fd == nil {
+		o.brokenDef(fs.coqName, "function "+fs.dir+":"+fs.recv+"."+fs.name+" not found")
+		return
+	}
+	var found ast.Expr
+	ast.Inspect(fd.Body, func(x ast.Node) bool {
+		if kv, ok := x.(*ast.KeyValueExpr); ok && found == nil {
+			if id, ok := kv.Key.(*ast.Ident); ok && id.Name == key {
+				found = kv.Value
+			}
+		}
+		return found == nil
+	})
+	if found == nil {
+		o.brokenDef(fs.coqName, "no composite literal field `"+key+":` in "+fs.name)
+		return
+	}
+	t := o.newTr(p, fs)
+	c := t.expr(found)
+	if t.err != nil {
+		o.brokenDef(fs.coqName, t.err.Error())
+		return
+	}
+	o.f("Definition %s %s : %s :=\n  %s.\n(* from %s:%s.%s : %s: %s *)\n", fs.coqName, fs.params, fs.retType, c, fs.dir, fs.recv, fs.name, key, printNode(p.fset, found))
+}
+
+// c14KeyValueIs: bool — the function contains a composite-literal field `key: want` (printed value equal to want)
+func (o *out) c14KeyValueIs(dir, recv, name, key, want, coqName string) {
+	p, fd := findFunc(dir, recv, name)
+	if fd == nil {
+		o.brokenDef(coqName, "function "+dir+":"+recv+"."+name+" not found")
+		return
+	}
+	found, got := false, ""
+	ast.Inspect(fd.Body, func(x ast.Node) bool {
+		if kv, ok := x.(*ast.KeyValueExpr); ok {
+			if id, ok := kv.Key.(*ast.Ident); ok && id.Name == key {
+				got = c14norm(printNode(p.fset, kv.Value))
+				if got == want {
+					found = true
+				}
+			}
+		}
+		return true
+	})
+	o.f("Definition %s : bool := %v. (* %s:%s.%s : field `%s:` is `%s` (want `%s`) *)\n", coqName, found, dir, recv, name, key, got, want)
+}
+
+// c14IndexAll: bool — every index expression on `base` in the function uses the index `want`, and there are exactly n of them
+func (o *out) c14IndexAll(dir, recv, name, base, want string, n int, coqName string) {
+	p, fd := findFunc(dir, recv, name)
+	if fd == nil {
+		o.brokenDef(coqName, "function "+dir+":"+recv+"."+name+" not found")
+		return
+	}
+	var got []string
+	ast.Inspect(fd.Body, func(x ast.Node) bool {
+		if ie, ok := x.(*ast.IndexExpr); ok && printNode(p.fset, ie.X) == base {
+			got = append(got, printNode(p.fset, ie.Index))
+		}
+		return true
+	})
+	ok := len(got) == n
+	for _, g := range got {
+		if g != want {
+			ok = false
+		}
+	}
+	o.f("Definition %s : bool := %v. (* %s:%s.%s : indices used on %s: %s *)\n", coqName, ok, dir, recv, name, base, strings.Join(got, ", "))
+}
+
+// c14CallArgs: bool — the (first) call to callee has exactly these printed arguments
+func (o *out) c14CallArgs(dir, recv, name, callee string, want []string, coqName string) {
+	p, fd := findFunc(dir, recv, name)
+	if fd == nil {
+		o.brokenDef(coqName, "function "+dir+":"+recv+"."+name+" not found")
+		return
+	}
+	var got []string
+	seen := false
+	ast.Inspect(fd.Body, func(x ast.Node) bool {
+		if ce, ok := x.(*ast.CallExpr); ok && !seen && printNode(p.fset, ce.Fun) == callee {
+			seen = true
+			for _, a := range ce.Args {
+				got = append(got, c14norm(printNode(p.fset, a)))
+			}
+		}
+		return true
+	})
+	ok := seen && len(got) == len(want)
+	for i := range got {
+		if ok && got[i] != want[i] {
+			ok = false
+		}
+	}
+	o.f("Definition %s : bool := %v. (* %s:%s.%s : %s(%s) *)\n", coqName, ok, dir, recv, name, callee, strings.Join(got, ", "))
+}
+
+// c14ConstArg: integer value of argument #idx of the first call to callee
+func (o *out) c14ConstArg(dir, recv, name, callee string, idx int, coqName string) {
+	p, fd := findFunc(dir, recv, name)
+	if fd == nil {
+		o.brokenDef(coqName, "function "+dir+":"+recv+"."+name+" not found")
+		return
+	}
+	var arg ast.Expr
+	ast.Inspect(fd.Body, func(x ast.Node) bool {
+		if ce, ok := x.(*ast.CallExpr); ok && arg == nil && printNode(p.fset, ce.Fun) == callee && len(ce.Args) > idx {
+			arg = ce.Args[idx]
+		}
+		return arg == nil
+	})
+	if arg == nil {
+		o.brokenDef(coqName, "no call to "+callee+" in "+name)
+		return
+	}
+	v, err := evalConst(dir, arg, 0)
+	if err != nil || v.isFloat {
+		o.brokenDef(coqName, fmt.Sprintf("argument %d of %s is not an integer constant expression (%v)", idx, callee, err))
+		return
+	}
+	o.f("Definition %s : Z := %d. (* %s:%s.%s : %s arg %d = %s *)\n", coqName, v.i, dir, recv, name, callee, idx, printNode(p.fset, arg))
+}
+
+// c14InsideClosure: bool — every call to one of `callees` sits inside a function literal passed to a call of `wrapper`
+func (o *out) c14InsideClosure(dir, recv, name, wrapper string, callees []string, coqName string) {
+	p, fd := findFunc(dir, recv, name)
+	if fd == nil {
+		o.brokenDef(coqName, "function "+dir+":"+recv+"."+name+" not found")
+		return
+	}
+	inside := map[string]int{}
+	total := map[string]int{}
+	count := func(root ast.Node, into map[string]int) {
+		ast.Inspect(root, func(x ast.Node) bool {
+			if ce, ok := x.(*ast.CallExpr); ok {
+				c := printNode(p.fset, ce.Fun)
+				for _, nm := range callees {
+					if c == nm || strings.HasSuffix(c, "."+nm) {
+						into[nm]++
+					}
+				}
+			}
+			return true
+		})
+	}
+	count(fd.Body, total)
+	ast.Inspect(fd.Body, func(x ast.Node) bool {
+		if ce, ok := x.(*ast.CallExpr); ok && printNode(p.fset, ce.Fun) == wrapper {
+			for _, a := range ce.Args {
+				if fl, ok := a.(*ast.FuncLit); ok {
+					count(fl.Body, inside)
+				}
+			}
+			return false
+		}
+		return true
+	})
+	ok := true
+	for _, nm := range callees {
+		if total[nm] == 0 || total[nm] != inside[nm] {
+			ok = false
+		}
+	}
+	o.f("Definition %s : bool := %v. (* %s:%s.%s : calls %v all inside the closure given to %s *)\n", coqName, ok, dir, recv, name, callees, wrapper)
+}
+
+// c14SharedVars: package-level variables of the listed packages and every write to one of them from a function other
+// than init (assignment, op-assignment, ++/--, element or field store, delete, address taken). Scope approximation: a
+// function that declares a local of the same name is skipped for that name.
+func (o *out) c14SharedVars(dirs []string) {
+	var vars, writes []string
+	// pass 1: names per package, keyed by the package's base name (as it appears in qualified identifiers)
+	byBase := map[string]map[string]string{} // base -> var -> dir
+	for _, dir := range dirs {
+		p := loadPkg(dir)
+		for _, f := range p.files {
+			base := f.Name.Name
+			if byBase[base] == nil {
+				byBase[base] = map[string]string{}
+			}
+			for _, d := range f.Decls {
+				if gd, ok := d.(*ast.GenDecl); ok && gd.Tok == token.VAR {
+					for _, s := range gd.Specs {
+						for _, n := range s.(*ast.ValueSpec).Names {
+							byBase[base][n.Name] = dir
+						}
+					}
+				}
+			}
+		}
+	}
+	for _, dir := range dirs {
+		p := loadPkg(dir)
+		names := map[string]string{} // name -> type/initialiser text
+		var fnames []string
+		for fn := range p.files {
+			fnames = append(fnames, fn)
+		}
+		sort.Strings(fnames)
+		for _, fn := range fnames {
+			for _, d := range p.files[fn].Decls {
+				gd, ok := d.(*ast.GenDecl)
+				if !ok || gd.Tok != token.VAR {
+					continue
+				}
+				for _, s := range gd.Specs {
+					vs := s.(*ast.ValueSpec)
+					for _, n := range vs.Names {
+						if n.Name == "_" {
+							continue
+						}
+						names[n.Name] = ""
+					}
+				}
+			}
+		}
+		for n := range names {
+			vars = append(vars, dir+":"+n)
+		}
+		for _, fn := range fnames {
+			for _, d := range p.files[fn].Decls {
+				fd, ok := d.(*ast.FuncDecl)
+				if !ok || fd.Body == nil || (fd.Name.Name == "init" && fd.Recv == nil) {
+					continue
+				}
+				local := map[string]bool{}
+				addFields := func(fl *ast.FieldList) {
+					if fl == nil {
+						return
+					}
+					for _, f := range fl.List {
+						for _, n := range f.Names {
+							local[n.Name] = true
+						}
+					}
+				}
+				addFields(fd.Recv)
+				addFields(fd.Type.Params)
+				addFields(fd.Type.Results)
+				ast.Inspect(fd.Body, func(x ast.Node) bool {
+					switch s := x.(type) {
+					case *ast.AssignStmt:
+						if s.Tok == token.DEFINE {
+							for _, l := range s.Lhs {
+								if id, ok := l.(*ast.Ident); ok {
+									local[id.Name] = true
+								}
+							}
+						}
+					case *ast.ValueSpec:
+						for _, n := range s.Names {
+							local[n.Name] = true
+						}
+					case *ast.RangeStmt:
+						if s.Tok == token.DEFINE {
+							for _, e := range []ast.Expr{s.Key, s.Value} {
+								if id, ok := e.(*ast.Ident); ok {
+									local[id.Name] = true
+								}
+							}
+						}
+					case *ast.FuncLit:
+						addFields(s.Type.Params)
+					}
+					return true
+				})
+				root := func(e ast.Expr) string {
+					for {
+						switch x := e.(type) {
+						case *ast.Ident:
+							return x.Name
+						case *ast.SelectorExpr:
+							if id, ok := x.X.(*ast.Ident); ok && !local[id.Name] {
+								if _, isVar := names[id.Name]; !isVar {
+									if d2, ok := byBase[id.Name][x.Sel.Name]; ok {
+										return "@" + d2 + ":" + x.Sel.Name
+									}
+								}
+							}
+							e = x.X
+						case *ast.IndexExpr:
+							e = x.X
+						case *ast.StarExpr:
+							e = x.X
+						case *ast.ParenExpr:
+							e = x.X
+						default:
+							return ""
+						}
+					}
+				}
+				fname := fd.Name.Name
+				if fd.Recv != nil && len(fd.Recv.List) == 1 {
+					t := fd.Recv.List[0].Type
+					if s, ok := t.(*ast.StarExpr); ok {
+						t = s.X
+					}
+					if id, ok := t.(*ast.Ident); ok {
+						fname = id.Name + "." + fname
+					}
+				}
+				seen := map[string]bool{}
+				note := func(n string) {
+					if strings.HasPrefix(n, "@") && !seen[n] {
+						seen[n] = true
+						writes = append(writes, n[1:]+"<-"+dir+"."+fname)
+						return
+					}
+					if _, ok := names[n]; ok && !local[n] && !seen[n] {
+						seen[n] = true
+						writes = append(writes, dir+":"+n+"<-"+fname)
+					}
+				}
+				ast.Inspect(fd.Body, func(x ast.Node) bool {
+					switch s := x.(type) {
+					case *ast.AssignStmt:
+						if s.Tok != token.DEFINE {
+							for _, l := range s.Lhs {
+								note(root(l))
+							}
+						}
+					case *ast.IncDecStmt:
+						note(root(s.X))
+					case *ast.UnaryExpr:
+						if s.Op == token.AND {
+							note(root(s.X))
+						}
+					case *ast.CallExpr:
+						if id, ok := s.Fun.(*ast.Ident); ok && id.Name == "delete" && len(s.Args) > 0 {
+							note(root(s.Args[0]))
+						}
+					}
+					return true
+				})
+			}
+		}
+	}
+	sort.Strings(vars)
+	sort.Strings(writes)
+	q := func(xs []string) string {
+		var ps []string
+		for _, x := range xs {
+			ps = append(ps, fmt.Sprintf("%q%%string", x))
+		}
+		return "[" + strings.Join(ps, ";\n  ") + "]"
+	}
+	o.f("Definition shared_vars : list String.string :=\n  %s.\n(* package-level variables of %v *)\n", q(vars), dirs)
+	o.f("Definition shared_writes : list String.string :=\n  %s.\n(* writes to package-level variables outside init(), as package:var<-function *)\n", q(writes))
+}
+
+// c14StructFieldsAre: bool — struct `name` in dir has exactly these fields (embedded fields by type name), in order
+func (o *out) c14StructFieldsAre(dir, name string, want []string, coqName string) {
+	p, st := findStruct(dir, name)
+	if st == nil {
+		o.brokenDef(coqName, "struct "+dir+"."+name+" not found")
+		return
+	}
+	var got []string
+	for _, f := range st.Fields.List {
+		if len(f.Names) == 0 {
+			got = append(got, printNode(p.fset, f.Type))
+		}
+		for _, n := range f.Names {
+			got = append(got, n.Name)
+		}
+	}
+	ok := len(got) == len(want)
+	for i := range got {
+		if ok && got[i] != want[i] {
+			ok = false
+		}
+	}
+	o.f("Definition %s : bool := %v. (* %s.%s fields: %s *)\n", coqName, ok, dir, name, strings.Join(got, " "))
+}
+
+// c14RangeGuard: bool — in function fn the body of the `for ... range <over>` loop begins with a select whose case on
+// `marker` returns, and the call to `callee` comes after that select inside the loop body
+func (o *out) c14RangeGuard(dir, recv, name, over, marker, callee, coqName string) {
+	p, fd := findFunc(dir, recv, name)
+	if fd == nil {
+		o.brokenDef(coqName, "function "+dir+":"+recv+"."+name+" not found")
+		return
+	}
+	ok := false
+	ast.Inspect(fd.Body, func(x ast.Node) bool {
+		rs, isR := x.(*ast.RangeStmt)
+		if !isR || printNode(p.fset, rs.X) != over || len(rs.Body.List) == 0 {
+			return true
+		}
+		sel, isS := rs.Body.List[0].(*ast.SelectStmt)
+		if !isS {
+			return true
+		}
+		guard := false
+		for _, cl := range sel.Body.List {
+			cc := cl.(*ast.CommClause)
+			if cc.Comm != nil && strings.Contains(printNode(p.fset, cc.Comm), marker) {
+				for _, st := range cc.Body {
+					if _, isRet := st.(*ast.ReturnStmt); isRet {
+						guard = true
+					}
+				}
+			}
+		}
+		called := false
+		for _, st := range rs.Body.List[1:] {
+			ast.Inspect(st, func(y ast.Node) bool {
+				if ce, isC := y.(*ast.CallExpr); isC {
+					c := printNode(p.fset, ce.Fun)
+					if c == callee || strings.HasSuffix(c, "."+callee) {
+						called = true
+					}
+				}
+				return true
+			})
+		}
+		if guard && called {
+			ok = true
+		}
+		return true
+	})
+	o.f("Definition %s : bool := %v. (* %s:%s.%s : loop over %s checks %s (and returns) before every %s *)\n", coqName, ok, dir, recv, name, over, marker, callee)
+}
+
+// c14GoDefers: bool — the function starts a goroutine `go func() { defer <deferred>; <call>() }()`
+func (o *out) c14GoDefers(dir, recv, name, deferred, call, coqName string) {
+	p, fd := findFunc(dir, recv, name)
+	if fd == nil {
+		o.brokenDef(coqName, "function "+dir+":"+recv+"."+name+" not found")
+		return
+	}
+	ok := false
+	ast.Inspect(fd.Body, func(x ast.Node) bool {
+		gs, isG := x.(*ast.GoStmt)
+		if !isG {
+			return true
+		}
+		fl, isF := gs.Call.Fun.(*ast.FuncLit)
+		if !isF || len(fl.Body.List) < 2 {
+			return true
+		}
+		d, isD := fl.Body.List[0].(*ast.DeferStmt)
+		if isD && c14norm(printNode(p.fset, d.Call)) == deferred && strings.Contains(printNode(p.fset, fl.Body.List[1]), call) {
+			ok = true
+		}
+		return true
+	})
+	o.f("Definition %s : bool := %v. (* %s:%s.%s : go func() { defer %s; %s } *)\n", coqName, ok, dir, recv, name, deferred, call)
+}
+
 func init() {
+	selectorConsts["math.MaxInt64"] = cval{i: 1<<63 - 1}
 	generators["C14_gen"] = func(o *out) {
+		o.f("From Coq Require Import String.\n")
 		// closeonce.Close: index into [Lock Closed f StoreUintptr Unlock]
 		o.callOrder("internal/closeonce", "Closed", "Close", "closeonce_calls", []string{"Lock", "Closed", "f", "StoreUintptr", "Unlock"})
 		o.condOf(funcSpec{dir: "internal/closeonce", recv: "Closed", name: "Close", coqName: "closeonce_skip",
@@ -16,9 +589,151 @@ func init() {
 		o.callOrder("internal/signinit", "", "Init", "init_calls", []string{"InitKey", "New", "SetTimestamp", "WithContext"})
 		// daemon.Close: Shutdown (waits for handlers) precedes closing the tokens; index into [Shutdown Close Wait]
 		o.callOrder("server/daemon", "Daemon", "Close", "daemon_close_calls", []string{"Shutdown", "Close", "Wait"})
+
+		// ---------------- (a) token/tokencache/cache.go with time
+		const tc = "token/tokencache"
+		cl := map[string]string{"cached.key != nil": "has_cached", "time.Now()": "now", "len(wantKeyID)": "want_len",
+			"bytes.Equal(wantKeyID, haveKeyID)": "ids_equal", "c.expiry": "expiry"}
+		ct := map[string]string{"cached.key != nil": "bool", "bytes.Equal(wantKeyID, haveKeyID)": "bool"}
+		cc := map[string]string{"cached.expires.After": "Z.gtb expires", "cached.expires.Before": "Z.ltb expires", "cached.expires.Equal": "Z.eqb expires",
+			"time.Now().Add": "Z.add now", "time.Now().Before": "Z.ltb now", "time.Now().After": "Z.gtb now"}
+		o.condOf(funcSpec{dir: tc, recv: "Cache", name: "GetKey", coqName: "cache_entry_live",
+			params: "(has_cached : bool) (expires now : Z)", retType: "bool", leaves: cl, types: ct, calls: cc}, "cached.key")
+		o.condOf(funcSpec{dir: tc, recv: "Cache", name: "GetKey", coqName: "cache_id_acceptable",
+			params: "(want_len : Z) (ids_equal : bool)", retType: "bool", leaves: cl, types: ct, calls: cc}, "haveKeyID")
+		o.condOf(funcSpec{dir: tc, recv: "Cache", name: "GetKey", coqName: "cache_may_store",
+			params: "(expiry want_len : Z)", retType: "bool", leaves: cl, types: ct, calls: cc}, "c.expiry")
+		o.c14KeyValue(funcSpec{dir: tc, recv: "Cache", name: "GetKey", coqName: "cache_store_expires",
+			params: "(now expiry : Z)", retType: "Z", leaves: cl, types: ct, calls: cc}, "expires")
+		o.c14KeyValueIs(tc, "Cache", "GetKey", "key", "key", "cache_stores_fetched_key")
+		o.c14IndexAll(tc, "Cache", "GetKey", "c.keys", "keyName", 2, "cache_indexed_by_request_name")
+		o.c14CallArgs(tc, "Cache", "GetKey", "c.Token.GetKey", []string{"ctx", "keyName"}, "cache_fetches_request_name")
+		// statement skeleton of GetKey (top level): positions of the lock, the deferred unlock, the fetch, its error check, the store
+		o.c14StmtPos(tc, "Cache", "GetKey", "c.mu.Lock()", "cache_pos_lock")
+		o.c14StmtPos(tc, "Cache", "GetKey", "defer c.mu.Unlock()", "cache_pos_defer_unlock")
+		o.c14StmtPos(tc, "Cache", "GetKey", "cached := c.keys[", "cache_pos_lookup")
+		o.c14StmtPos(tc, "Cache", "GetKey", "if cached.key != nil", "cache_pos_check")
+		o.c14StmtPos(tc, "Cache", "GetKey", "key, err := c.Token.GetKey(", "cache_pos_fetch")
+		o.c14StmtPos(tc, "Cache", "GetKey", "if err != nil { return nil, err }", "cache_pos_errcheck")
+		o.c14StmtPos(tc, "Cache", "GetKey", "if c.expiry > 0", "cache_pos_store")
+		o.c14StmtPos(tc, "Cache", "GetKey", "return key, nil", "cache_pos_return")
+		o.c14CountCalls(tc, "Cache", "GetKey", "Unlock", "cache_unlock_calls")
+		o.c14CountCalls(tc, "Cache", "GetKey", "Lock", "cache_lock_calls")
+		o.hasStmt(tc, "Cache", "GetKey", "return cached.key, nil", "cache_hit_returns_cached")
+		o.c14KeyValueIs(tc, "", "New", "expiry", "expiry", "cache_new_keeps_expiry")
+		// the cache holds nothing but the key map: no table of in-flight lookups shared between callers
+		o.c14StructFieldsAre(tc, "Cache", []string{"token.Token", "keys", "mu", "expiry"}, "cache_struct_plain")
+		o.c14StructFieldsAre(tc, "cachedKey", []string{"expires", "key"}, "cache_entry_plain")
+		o.c14StructFieldsAre(tc, "RateLimited", []string{"token.Token", "limit"}, "rl_struct_plain")
+		o.c14StructFieldsAre("internal/closeonce", "Closed", []string{"done", "mu", "err"}, "closeonce_struct_plain")
+
+		// ---------------- (b) token/tokencache/ratelimit.go (relic's wrapper) and the limiter it drives
+		rl := map[string]string{"burst": "burst"}
+		o.condOf(funcSpec{dir: tc, recv: "", name: "NewLimiter", coqName: "rl_burst_too_small", params: "(burst : Z)", retType: "bool", leaves: rl}, "burst")
+		o.exprOfAssign(funcSpec{dir: tc, recv: "", name: "NewLimiter", coqName: "rl_burst_floor", params: "", retType: "Z"}, "burst", 0)
+		o.c14CallArgs(tc, "", "NewLimiter", "rate.NewLimiter", []string{"rate.Limit(limit)", "burst"}, "rl_newlimiter_args")
+		// each entry point waits on the shared limiter BEFORE touching the token; index into [Wait <operation>]
+		o.callOrder(tc, "RateLimited", "GetKey", "rl_getkey_calls", []string{"Wait", "GetKey"})
+		o.callOrder(tc, "rateLimitedKey", "Sign", "rl_sign_calls", []string{"Wait", "Sign"})
+		o.callOrder(tc, "rateLimitedKey", "SignContext", "rl_signctx_calls", []string{"Wait", "SignContext"})
+		o.c14StmtPos(tc, "RateLimited", "GetKey", "if err := r.limit.Wait(ctx); err != nil { return nil, err }", "rl_getkey_wait_checked")
+		o.c14StmtPos(tc, "rateLimitedKey", "Sign", "if err := k.limit.Wait(context.Background()); err != nil { return nil, err }", "rl_sign_wait_checked")
+		o.c14StmtPos(tc, "rateLimitedKey", "SignContext", "if err := k.limit.Wait(ctx); err != nil { return nil, err }", "rl_signctx_wait_checked")
+		o.c14KeyValueIs(tc, "RateLimited", "GetKey", "limit", "r.limit", "rl_key_shares_limiter")
+		o.c14KeyValueIs(tc, "RateLimited", "GetKey", "Key", "key", "rl_key_wraps_fetched")
+		// server wiring: Metrics -> (RateLimit != 0: NewLimiter) -> tokencache.New ; index into [Token NewLimiter New]
+		o.callOrder("server", "Server", "openTokens", "open_tokens_calls", []string{"Token", "NewLimiter", "New"})
+		o.condOf(funcSpec{dir: "server", recv: "Server", name: "openTokens", coqName: "rl_enabled", params: "(ratelimit : Z)", retType: "bool",
+			leaves: map[string]string{"tconf.RateLimit": "ratelimit"}}, "tconf.RateLimit")
+		o.c14CallArgs("server", "Server", "openTokens", "tokencache.NewLimiter", []string{"tok", "tconf.RateLimit", "tconf.RateBurst"}, "open_tokens_limiter_args")
+		o.c14CallArgs("server", "Server", "openTokens", "tokencache.New", []string{"tok", "expiry"}, "open_tokens_cache_args")
+		// golang.org/x/time/rate at the version relic pins
+		if xd := c14ModDir("golang.org/x/time"); xd == "" || !c14LoadAbs("@xtime/rate", filepath.Join(xd, "rate")) {
+			o.brokenDef("rate_*", "golang.org/x/time/rate not found in the module cache ("+xd+")")
+		} else {
+			const xr = "@xtime/rate"
+			xl := map[string]string{"last": "last", "tokens": "tokens", "burst": "burst", "n": "n", "lim.burst": "burst", "waitDuration": "wait",
+				"maxFutureReserve": "maxwait", "limit": "rate", "delay": "delay"}
+			xc := map[string]string{"t.Before": "Z.ltb t", "t.After": "Z.gtb t", "t.Add": "Z.add t", "float64": ""}
+			o.condOf(funcSpec{dir: xr, recv: "Limiter", name: "advance", coqName: "rate_clamp", params: "(t last : Z)", retType: "bool", leaves: xl, calls: xc}, "last")
+			o.condOf(funcSpec{dir: xr, recv: "Limiter", name: "advance", coqName: "rate_over_burst", params: "(tokens burst : Z)", retType: "bool", leaves: xl, calls: xc}, "burst")
+			o.condOf(funcSpec{dir: xr, recv: "Limiter", name: "reserveN", coqName: "rate_needs_wait", params: "(tokens : Z)", retType: "bool", leaves: xl, calls: xc}, "tokens")
+			o.exprOfAssign(funcSpec{dir: xr, recv: "Limiter", name: "reserveN", coqName: "rate_ok", params: "(n burst wait maxwait : Z)", retType: "bool", leaves: xl, calls: xc}, "ok", 0)
+			o.exprOfAssign(funcSpec{dir: xr, recv: "Limiter", name: "reserveN", coqName: "rate_time_to_act", params: "(t wait : Z)", retType: "Z", leaves: xl, calls: xc}, "r.timeToAct", 0)
+			o.hasStmt(xr, "Limiter", "reserveN", "tokens -= float64(n)", "rate_deducts_n")
+			o.hasStmt(xr, "Limiter", "reserveN", "lim.last = t", "rate_sets_last")
+			o.hasStmt(xr, "Limiter", "reserveN", "lim.tokens = tokens", "rate_sets_tokens")
+			o.condOf(funcSpec{dir: xr, recv: "Limit", name: "durationFromTokens", coqName: "rate_nonpositive", params: "(rate : Z)", retType: "bool", leaves: xl, calls: xc}, "limit")
+			o.condOf(funcSpec{dir: xr, recv: "Limiter", name: "wait", coqName: "rate_no_delay", params: "(delay : Z)", retType: "bool", leaves: xl, calls: xc}, "delay")
+			o.c14KeyValueIs(xr, "", "NewLimiter", "tokens", "float64(b)", "rate_starts_full")
+			o.constInt(xr, "InfDuration", "rate_inf_duration")
+			// Wait = WaitN(ctx, 1)
+			o.c14CallArgs(xr, "Limiter", "Wait", "lim.WaitN", []string{"ctx", "1"}, "rate_wait_is_one")
+			for _, fn := range [][2]string{{"Limiter", "advance"}, {"Limiter", "reserveN"}, {"Limiter", "wait"}, {"Limit", "durationFromTokens"}, {"Limit", "tokensFromDuration"}} {
+				fingerprint(xr, fn[0], fn[1])
+			}
+		}
+
+		// ---------------- (c) shutdown
+		// daemon.Close: [Go WithTimeout Shutdown Close Wait]; Shutdown and server.Close run inside the closure handed to the errgroup
+		o.callOrder("server/daemon", "Daemon", "Close", "daemon_close_order", []string{"Go", "WithTimeout", "Shutdown", "Close", "Wait"})
+		o.c14InsideClosure("server/daemon", "Daemon", "Close", "d.eg.Go", []string{"Shutdown", "Close"}, "daemon_close_in_group")
+		o.c14ConstArg("server/daemon", "Daemon", "Close", "context.WithTimeout", 1, "daemon_shutdown_timeout")
+		o.c14StmtPos("server/daemon", "Daemon", "Close", "return d.eg.Wait()", "daemon_close_pos_wait")
+		// daemon.Serve: [Go Serve Wait]; Serve runs inside the errgroup and the caller waits for it
+		o.callOrder("server/daemon", "Daemon", "Serve", "daemon_serve_calls", []string{"Go", "Serve", "Wait"})
+		o.c14InsideClosure("server/daemon", "Daemon", "Serve", "d.eg.Go", []string{"httpServer.Serve"}, "daemon_serve_in_group")
+		// server.Close: [close Close]: stop the health loop, then close every token
+		o.callOrder("server", "Server", "Close", "server_close_calls", []string{"close", "Close"})
+		o.selectArmExits("server", "Server", "healthCheckLoop", "s.Closed", "health_loop_exits_on_close")
+		// server.Close: close the channel, wait for the health loop to be gone, only then close the tokens
+		o.c14StmtPos("server", "Server", "Close", "if s.closeCh != nil { close(s.closeCh)", "server_close_pos_chan")
+		o.c14StmtPos("server", "Server", "Close", "if s.healthDone != nil { <-s.healthDone }", "server_close_pos_wait")
+		o.c14StmtPos("server", "Server", "Close", "for _, t := range s.tokens { t.Close() }", "server_close_pos_tokens")
+		o.hasStmt("server", "Server", "startHealthCheck", "s.healthDone = done", "health_done_registered")
+		o.c14GoDefers("server", "Server", "startHealthCheck", "close(done)", "s.healthCheckLoop()", "health_done_closed_on_exit")
+		o.c14RangeGuard("server", "Server", "healthCheck", "s.tokens", "s.Closed", "pingOne", "health_check_stops_on_close")
+		// serveSign: [GetKey Allowed FlagsFromQuery Init Sign PublishAudit Write]
+		o.callOrder("server", "Server", "serveSign", "serve_sign_calls", []string{"GetKey", "Allowed", "FlagsFromQuery", "Init", "Sign", "PublishAudit", "Write"})
+		o.callOrder("internal/signinit", "", "InitKey", "initkey_calls", []string{"GetKey", "LoadTokenCertificates"})
+
+		// ---------------- (d) audit file
+		o.c14CountCalls("lib/audit", "Info", "AppendTo", "Write", "append_write_calls")
+		o.callOrder("lib/audit", "Info", "AppendTo", "append_order", []string{"OpenFile", "Marshal", "append", "Write"})
+		o.hasStmt("lib/audit", "Info", "AppendTo", "blob = append(blob, '\\n')", "append_adds_newline")
+		o.c14CallArgs("lib/audit", "Info", "AppendTo", "os.OpenFile", []string{"logFile", "os.O_CREATE | os.O_APPEND | os.O_WRONLY", "0600"}, "append_opens_o_append")
+		o.c14CallArgs("lib/audit", "Info", "AppendTo", "f.Write", []string{"blob"}, "append_writes_blob")
+
+		// ---------------- (e) timestamper and package-level mutable state
+		tl := map[string]string{"ts == nil": "is_nil", `kconf.Timestamper != ""`: "named", "kconf.Timestamp": "enabled", `flags.GetBool("no-timestamp")`: "no_ts"}
+		tt := map[string]string{"ts == nil": "bool", `kconf.Timestamper != ""`: "bool", "kconf.Timestamp": "bool", `flags.GetBool("no-timestamp")`: "bool"}
+		o.condOf(funcSpec{dir: "internal/signinit", recv: "", name: "GetTimestamper", coqName: "ts_needs_init", params: "(is_nil : bool)", retType: "bool", leaves: tl, types: tt}, "ts")
+		o.callOrder("internal/signinit", "", "GetTimestamper", "ts_calls", []string{"Lock", "Unlock", "newTimestamper"})
+		o.c14StmtPos("internal/signinit", "", "GetTimestamper", "mu.Lock()", "ts_pos_lock")
+		o.c14StmtPos("internal/signinit", "", "GetTimestamper", "defer mu.Unlock()", "ts_pos_defer_unlock")
+		o.c14CountCalls("internal/signinit", "", "GetTimestamper", "Unlock", "ts_unlock_calls")
+		o.hasStmt("internal/signinit", "", "GetTimestamper", "ts, err = newTimestamper()", "ts_assigns_global")
+		o.hasStmt("internal/signinit", "", "GetTimestamper", "return ts, err", "ts_returns_global")
+		o.condOf(funcSpec{dir: "internal/signinit", recv: "", name: "Init", coqName: "ts_wanted", params: "(enabled named no_ts : bool)", retType: "bool", leaves: tl, types: tt}, "kconf.Timestamp")
+		o.hasStmt("internal/signinit", "namedTimestamper", "Timestamp", "r2 := *req", "ts_request_copied")
+		o.c14CallArgs("internal/signinit", "namedTimestamper", "Timestamp", "t.client.Timestamp", []string{"ctx", "&r2"}, "ts_passes_copy")
+		sdirs := []string{}
+		if ents, err := os.ReadDir(filepath.Join(repo, "signers")); err == nil {
+			for _, e := range ents {
+				if e.IsDir() {
+					sdirs = append(sdirs, "signers/"+e.Name())
+				}
+			}
+		}
+		o.c14SharedVars(append(sdirs, "cmdline/shared", "internal/closeonce", "internal/signinit", "lib/audit", "lib/compresshttp", "server", "server/daemon",
+			"signers", "token", "token/tokencache", "internal/zhttp", "internal/authmodel", "internal/httperror", "internal/realip"))
+
 		for _, fn := range [][3]string{{"internal/closeonce", "Closed", "Close"}, {"token/tokencache", "Cache", "GetKey"}, {"server", "Server", "healthCheck"},
 			{"signers", "Signer", "FlagsFromQuery"}, {"signers", "FlagValues", "mergeSet"}, {"internal/signinit", "", "Init"}, {"server/daemon", "Daemon", "Close"},
-			{"server/daemon", "Daemon", "Serve"}, {"internal/signinit", "", "GetTimestamper"}} {
+			{"server/daemon", "Daemon", "Serve"}, {"internal/signinit", "", "GetTimestamper"},
+			{"token/tokencache", "RateLimited", "GetKey"}, {"token/tokencache", "rateLimitedKey", "Sign"}, {"token/tokencache", "rateLimitedKey", "SignContext"},
+			{"token/tokencache", "", "NewLimiter"}, {"server", "Server", "Close"}, {"server", "Server", "openTokens"}, {"server", "Server", "healthCheckLoop"},
+			{"lib/audit", "Info", "AppendTo"}, {"internal/signinit", "", "newTimestamper"}, {"internal/signinit", "namedTimestamper", "Timestamp"}} {
 			fingerprint(fn[0], fn[1], fn[2])
 		}
 	}
